@@ -49,10 +49,16 @@ func (o *operation) GetEntry() ipfslog.Entry {
 }
 
 func (o *operation) GetDocs() []OpDoc {
-	ret := make([]OpDoc, len(o.Docs))
+	ret := make([]OpDoc, 0, len(o.Docs))
 
-	for i, val := range o.Docs {
-		ret[i] = val
+	for _, val := range o.Docs {
+		// operations come off the wire: a batch may list "null" where a
+		// document is expected, which decodes to a nil pointer
+		if val == nil {
+			continue
+		}
+
+		ret = append(ret, val)
 	}
 
 	return ret
